@@ -44,6 +44,7 @@ type FuncContract struct {
 	Trusted  bool
 	Inline   bool
 	Opaque   bool // never inline even when small
+	Abstract map[string]bool // callees (unqualified names) whose postconditions are NOT used when verifying this function (keeps heavy spec functions out of its VCs; dropping assumptions is sound)
 	Sticky   bool // single-result method: once non-nil/true for a receiver, it stays so (e.g. context.Context.Err)
 	Effects  []string
 	Calls    map[string]string // param name -> once|any|foreach
@@ -108,7 +109,7 @@ var clauseKeywords = map[string]bool{
 	"func": true, "spec": true, "ghost": true, "lemma": true, "axiom": true,
 	"requires": true, "ensures": true, "assumes": true, "loop": true, "callback": true, "nopanic": true,
 	"assigns": true, "effects": true, "calls": true, "pure": true,
-	"trusted": true, "inline": true, "reach": true, "sends": true, "opaque": true, "sticky": true, "crash_invariant": true, "results": true,
+	"trusted": true, "inline": true, "reach": true, "sends": true, "opaque": true, "sticky": true, "abstract": true, "crash_invariant": true, "results": true,
 }
 
 var tagRe = regexp.MustCompile(`^([a-z_]+)\[([A-Za-z0-9_,\- ]+)\]`)
@@ -435,6 +436,18 @@ func parseContractFile(path, pkgPath string) (*ContractFile, error) {
 				return nil, err
 			}
 			cur.Sticky = true
+		case "abstract":
+			if err := needCur(); err != nil {
+				return nil, err
+			}
+			if cur.Abstract == nil {
+				cur.Abstract = map[string]bool{}
+			}
+			for _, a := range strings.Split(rest, ",") {
+				if a = strings.TrimSpace(a); a != "" {
+					cur.Abstract[a] = true
+				}
+			}
 		case "trusted":
 			if err := needCur(); err != nil {
 				return nil, err
